@@ -59,8 +59,8 @@ def model_check(thorough, wd):
                    MC_INVARIANTS, True)
     else:
         cfg = os.path.join(SPEC, "MC_Str.cfg")
-    r = tlc("MC_Str", cfg, workers=12 if thorough else 10, timeout=2400 if thorough else 600, coverage=True,
-            xmx="12g" if thorough else "8g")
+    r = tlc("MC_Str", cfg, workers=8, timeout=2400 if thorough else 900, coverage=True,
+            xmx="12g" if thorough else "8g", metadir=os.path.join(wd, "md-mc"))
     if r.error and "StepProps violated" in r.out:
         raise ToolError("MC_Str: the specification violates its own step properties:\n" + r.out[-4000:])
     require_ok(r, "MC_Str")
@@ -85,7 +85,8 @@ def _emission_sets(thorough):
             ("every-op", dict(one_op, MaxChars=2, Texts="TextsSmall", InclSet="NoIncl", DrainF=1, DrainB=1, MaxPieces=1,
                               FixedCaps="CapsSmall"), None),
             # every instance of the decoding / formatting constructors
-            ("every-ctor", dict(emitc, MaxOps=1, MaxChars=4, CtorNames="DecodeCtors", MaxSegs=2, MaxPieces=2), None),
+            ("every-ctor", dict(emitc, MaxOps=1, MaxChars=4, StartTexts="SomeStrings", CtorNames="DecodeCtors", MaxSegs=2,
+                                MaxPieces=2), None),
             # seeded random walks
             ("walks", dict(walk, MaxOps=8), (300, 12, 4)),
         ]
@@ -94,7 +95,8 @@ def _emission_sets(thorough):
     for kind in ("KindBox", "KindFixed", "KindGrow"):
         sets.append(("every-op-" + kind, dict(one_op, MaxChars=3, Kinds=kind, Texts="TextsSmall", InclSet="BothIncl",
                                               DrainF=2, DrainB=1, MaxPieces=2), None))
-    sets.append(("every-ctor", dict(emitc, MaxOps=1, MaxChars=4, CtorNames="DecodeCtors", MaxSegs=3, MaxPieces=2), None))
+    sets.append(("every-ctor", dict(emitc, MaxOps=1, MaxChars=4, StartTexts="SomeStrings", CtorNames="DecodeCtors", MaxSegs=3,
+                                    MaxPieces=2), None))
     # every behaviour of constructor + 2 operations over a 3-character alphabet (widths 1, 2, 4)
     sets.append(("every-path-2", dict(emitc, MaxOps=3, MaxChars=2, Alphabet="AlphabetSmall", StartTexts="Strings1",
                                       CtorNames="FromStrOnly", Texts="TextsSmall", InclSet="NoIncl", Apis="OnlyP",
@@ -146,7 +148,8 @@ def emit(thorough, wd):
                     ufs = list(ex.map(one, range(procs)))
             else:
                 uf = os.path.join(wd, "emit-%s.out" % name)
-                r = tlc("MC_Str", cfg, workers=8, timeout=2400, xmx="12g", args=("-userFile", uf))
+                r = tlc("MC_Str", cfg, workers=6, timeout=2400, xmx="12g", args=("-userFile", uf),
+                        metadir=os.path.join(wd, "md-" + name))
                 require_ok(r, "behaviour emission " + name)
                 ufs = [uf]
             k = 0
@@ -278,11 +281,23 @@ def check_c09(tier):
 
 
 def _check(tier, t0, thorough, out, wd):
+    from concurrent.futures import ThreadPoolExecutor
     bins = cargo_build("strs", jobs=8)
 
-    mc = model_check(thorough, wd)
-    log("MC_Str: %d distinct states, %d transitions, %.0fs" % (mc.distinct, mc.generated, mc.wall))
+    # model checking runs concurrently with behaviour emission / replay / observation checking
+    pool = ThreadPoolExecutor(max_workers=1)
+    if os.environ.get("VERIF_C09_SKIP_MC"):
+        # self-test mode (mutants of /repo): the model-checking half does not depend on /repo; no evidence is written
+        mc_future = pool.submit(lambda: None)
+    else:
+        mc_future = pool.submit(model_check, thorough, wd)
+    try:
+        return _conformance(tier, t0, thorough, out, wd, bins, mc_future)
+    finally:
+        pool.shutdown(wait=True)
 
+
+def _conformance(tier, t0, thorough, out, wd, bins, mc_future):
     beh_path, sets, emit_s = emit(thorough, wd)
     obs, nbeh, nsteps, nlines, canaries = observe(bins["strs"], beh_path, wd, thorough)
     log("replayed %d behaviours: %d steps executed, %d distinct records" % (nbeh, nsteps, nlines))
@@ -353,7 +368,12 @@ def _check(tier, t0, thorough, out, wd):
         })
     if drift:
         log("MODEL-DRIFT C09: %s records differ from the implementation-shaped model but satisfy the contract" % dict(drift))
+    mc = mc_future.result()
     rc = out.finish()
+    if mc is None:
+        log("VERIF_C09_SKIP_MC set: model checking skipped, evidence file not written")
+        return rc
+    log("MC_Str: %d distinct states, %d transitions, %.0fs" % (mc.distinct, mc.generated, mc.wall))
 
     samples = []
     with open(beh_path) as f:
